@@ -110,7 +110,15 @@ func (c *Ctx) Fact(key, val string) {
 }
 
 func (c *Ctx) Eval(n int64)                { c.P.Evaluations += n }
-func (c *Ctx) Count(name string, n int64)  { c.P.Counters[name] += n }
+func (c *Ctx) Count(name string, n int64) {
+	if strings.HasPrefix(name, "max:") {
+		if n > c.P.Counters[name] {
+			c.P.Counters[name] = n
+		}
+		return
+	}
+	c.P.Counters[name] += n
+}
 func (c *Ctx) Outcome(o string) {
 	if len(c.P.Outcomes) < 4000 || c.P.Outcomes[o] > 0 {
 		c.P.Outcomes[o]++
@@ -206,7 +214,10 @@ func runWorker(c *Ctx) int {
 	c.NShards, _ = strconv.Atoi(os.Getenv("VERIF_NSHARDS"))
 	c.Scratch = filepath.Join(c.Scratch, fmt.Sprintf("w%d", c.Shard))
 	os.MkdirAll(c.Scratch, 0o755)
+	tw := time.Now()
 	def.Run(c)
+	c.Count("max:worker_wall_ms", time.Since(tw).Milliseconds())
+	c.Count("sum_worker_wall_ms", time.Since(tw).Milliseconds())
 	// distinct hashes: sorted binary file merged by the driver
 	hs := make([]uint64, 0, len(c.seen))
 	for h := range c.seen {
